@@ -434,6 +434,32 @@ func Monitors(c *Case) []vh.Violation {
 		cause := "other"
 		if lifecyclePanic {
 			cause = "lifecycle-handler-panic"
+		} else {
+			// a registered actor that failed and has handled nothing since (still suspended: no directive released it),
+			// while graceful termination requests — user messages, which a suspended mailbox does not take — are around
+			graceful := c.Scn.Final
+			for _, o := range fl {
+				if o.K == "TR" && o.Closed {
+					graceful = true
+				}
+			}
+			for _, t := range regs {
+				lastF, lastH := -1, -1
+				for i, o := range fl {
+					if o.A != t {
+						continue
+					}
+					switch o.K {
+					case "F":
+						lastF = i
+					case "H":
+						lastH = i
+					}
+				}
+				if graceful && lastF >= 0 && lastH < lastF {
+					cause = "failed-actor-suspended-under-graceful-stop"
+				}
+			}
 		}
 		add("C05:shutdown-incomplete", "no step is enabled any more but the system has not closed (Shutdown would hang); cause: "+cause,
 			map[string]string{"cause": cause})
